@@ -18,6 +18,9 @@ CHECKS = {
  "C04": ("exploration", "deviation-bounded enumeration of physical encodings by an independent writer",
    "For fixed logical content an independent writer emits every file within <= d deviations from a baseline physical plan (all legal level run plans, page splits, codecs, snappy stream shapes, optional thrift content) and the generated reader must return the records; d=1 exhaustive, d=2 over a reduced set, plus long run families.",
    "Foreign writer and reference parser cross-checked on every file; snappy/gzip libraries trusted; zero padding bits.", "4/C04"),
+ "C05": ("exploration", "exhaustive program enumeration over a bounded struct grammar (generate, compile, run against reference oracles)",
+   "Every struct definition of the grammar (quick: 2073 shapes of depth<=2 with <=2 leaves plus leaf-type x context; thorough: depth<=3 / 3 leaves) goes through the freshly built parquetgen twice, the Go compiler, and the round-trip, validity and striping oracles on every value up to a node bound; each failing (shape, class) must be in the committed known-findings list.",
+   "Shapes beyond the grammar bound are not covered; the generator's many genuine defects are recorded per shape in known_findings.jsonl.", "4/C05"),
  "C06": ("model_checking", "explicit-state exploration of the writer API (all Add/Write histories to a depth bound) against a list-of-batches model",
    "Every history over {Add, Write} up to length L, with Close applied at every state, for every page size 1..k and codec, is executed on the real writer and compared with a list-of-batches reference model (file validity, row groups, per-row-group contents, reader output).",
    "Histories beyond L are not explored; every model trace is executed on the implementation.", "4/C06"),
